@@ -853,26 +853,59 @@ Proof.
 Qed.
 End Commutator.
 
-(* ================================================================== I. the sensitivity term *)
-(* ctrlmat_step = s * b is linear in the sensitivity s; its derivative through s(u) is s'(u) * b.  The code
-   computes (s'/s) * ctrlmat_step: correct for s <> 0 ... *)
-Theorem sens_term_correct (ncd s : R) (b : Cx) : s <> 0 ->
-  sens_term RO ncd s (cscal RO s b) = cscal RO ncd b.
-Proof. intros Hs. unfold sens_term. apply c_eq; csimp; field; auto. Qed.
-(* ... and wrong for s = 0 (0/0 in floating point; over the reals the term vanishes instead of being s' * b) *)
-Theorem sens_term_refuted : exists (ncd : R) (b : Cx), sens_term RO ncd 0 (cscal RO 0 b) <> cscal RO ncd b.
+(* ================================================================== I. the sensitivity term and the identity component *)
+(* ctrlmat_step = s * b is linear in the sensitivity s; its derivative through s(u) is s'(u) * b, b the control
+   matrix of the unit-sensitivity operator (fix 26b5723): product rule, for every s (zero included) *)
+Theorem sens_product_rule (s : R -> R) (b : R -> Cx) u ds db :
+  is_derive s u ds -> cderive b u db ->
+  cderive (fun v => cscal RO (s v) (b v)) u (cadd' (cscal RO (s u) db) (sens_term RO ds (b u))).
+Proof. intros Ds Db. unfold sens_term. rewrite cadd_comm. apply cderive_cscal; auto. Qed.
+
+(* pre-fix: (s'/s) * (s * b): right for s <> 0, wrong for s = 0 (0/0 in floating point; over the reals the term
+   vanished instead of being s' * b) *)
+Definition sens_term_prefix (ncd s : R) (step : Cx) : Cx := cscal RO (ncd / s) step.
+Theorem sens_term_prefix_correct (ncd s : R) (b : Cx) : s <> 0 ->
+  sens_term_prefix ncd s (cscal RO s b) = sens_term RO ncd b.
+Proof. intros Hs. unfold sens_term_prefix, sens_term. apply c_eq; csimp; field; auto. Qed.
+Theorem sens_term_prefix_refuted : exists (ncd : R) (b : Cx), sens_term_prefix ncd 0 (cscal RO 0 b) <> sens_term RO ncd b.
 Proof.
-  exists 1, 1c. unfold sens_term. intros H. apply (f_equal fst) in H. revert H. csimp. intros H.
+  exists 1, 1c. unfold sens_term_prefix, sens_term. intros H. apply (f_equal fst) in H. revert H. csimp. intros H.
   rewrite !Rmult_0_l, Rmult_0_r in H. lra.
 Qed.
-(* product rule for s(u) * b(u) in the form the code uses: s * b' + (s'/s) * (s * b) *)
-Theorem sens_product_rule (s : R -> R) (b : R -> Cx) u ds db : s u <> 0 ->
-  is_derive s u ds -> cderive b u db ->
-  cderive (fun v => cscal RO (s v) (b v)) u
-          (cadd' (cscal RO (s u) db) (sens_term RO ds (s u) (cscal RO (s u) (b u)))).
+
+(* the identity component removed by infidelity(): |T(u)|^2/d with T = tr(B_a) sum_g s_g(u) seg_g; only the sensitivity
+   of segment g0 depends on u = u_h(t_g0).  Its derivative is the term infidelity_derivative subtracts (fix 49bf6b9). *)
+Theorem identity_term_deriv (d G g0 : nat) (tr : Cx) (seg : nat -> Cx) (s : nat -> R -> R) (ds : R) u :
+  (g0 < G)%nat ->
+  (forall g, (g < G)%nat -> is_derive (s g) u (if Nat.eqb g g0 then ds else 0)) ->
+  is_derive (fun v => cabs2 RO (cmul' tr (csumn' G (fun g => cscal RO (s g v) (seg g)))) / IZR (Z.of_nat d)) u
+    (2 * fst (cmul' (cconj' (cmul' tr (csumn' G (fun g => cscal RO (s g u) (seg g)))))
+                    (ident_deriv_entry RO tr ds (seg g0))) / IZR (Z.of_nat d)).
 Proof.
-  intros Hs Ds Db. rewrite sens_term_correct by auto. rewrite cadd_comm. apply cderive_cscal; auto.
+  intros Hg Hs.
+  set (Tf := fun v => cmul' tr (csumn' G (fun g => cscal RO (s g v) (seg g)))).
+  assert (DT : cderive Tf u (ident_deriv_entry RO tr ds (seg g0))).
+  { unfold Tf, ident_deriv_entry. apply cderive_mul_l.
+    replace (cscal RO ds (seg g0))
+      with (csumn' G (fun g => cadd' (cscal RO (if Nat.eqb g g0 then ds else 0) (seg g)) (cscal RO (s g u) 0c))).
+    - apply (cderive_csumn G (fun g v => cscal RO (s g v) (seg g))). intros g Hgg.
+      apply cderive_cscal. apply Hs; auto. apply cderive_const.
+    - rewrite (csumn_single G g0); auto.
+      + rewrite Nat.eqb_refl. rewrite cscal_0_r. ring.
+      + intros g Hgg Hne. destruct (Nat.eqb_spec g g0); [contradiction|]. rewrite cscal_0_l, cscal_0_r. ring. }
+  pose proof (ff_deriv 1 (fun _ => Tf) (fun _ => ident_deriv_entry RO tr ds (seg g0)) u) as F.
+  assert (F' : is_derive (fun v => ff_diag 1 (fun _ => Tf v)) u
+                 (ffd_entry RO 1 (fun _ => Tf u) (fun _ => ident_deriv_entry RO tr ds (seg g0)))).
+  { apply F. intros k _. exact DT. }
+  unfold Rdiv. apply (is_derive_ext (fun v => ff_diag 1 (fun _ => Tf v) * / IZR (Z.of_nat d))).
+  { intros v. unfold ff_diag, Tf. simpl. csimp. ring. }
+  evar_last. apply is_derive_Rmult. exact F'. apply @is_derive_const.
+  unfold ffd_entry, o2, zero; simpl. csimp. ring.
 Qed.
+(* the model's corrected entry is the filter function derivative minus that derivative *)
+Lemma ffd_minus_ident_eq (d : nat) FD (id idd : Cx) :
+  ffd_minus_ident RO d FD id idd = FD - 2 * fst (cmul' (cconj' id) idd) / IZR (Z.of_nat d).
+Proof. unfold ffd_minus_ident, o2, oZ; simpl. unfold Rdya. simpl. rewrite Rmult_1_r. replace (1 + 1) with 2 by ring. reflexivity. Qed.
 
 (* ================================================================== J. the list-level functions are made of the entries *)
 Section Entries.
@@ -890,8 +923,10 @@ Theorem ctrlmat_deriv_entry thr th3 thrA evs Vs Qs omega basis nopers copers nco
   let NTs := noise_NT Op d Vs (nthm nopers a) (nthv ncoeffs a) G in
   let steps := noise_steps Op d G nj no phases BTs (sh_ints Op d thr evs dts omega) NTs in
   let cd := nth h (map (ctrl_data Op d thrA G nj evs Vs Qs dts (sh_X Op d Qs basis G)) copers) ([], []) in
-  let SD := pair_SD Op d G nj no phases BTs (sh_DIs Op d th3 evs dts omega) NTs (fst cd) steps use_ncd
-                    (nth2 [] ncd a h) (nthv ncoeffs a) in
+  let steps_unit := noise_steps Op d G nj no phases BTs (sh_ints Op d thr evs dts omega)
+                                (noise_NT_unit Op d Vs (nthm nopers a) G) in
+  let SD := pair_SD Op d G nj no phases BTs (sh_DIs Op d th3 evs dts omega) NTs (fst cd) steps_unit use_ncd
+                    (nth2 [] ncd a h) in
   nth k (nth o (nth s (nth h (nth a
     (ctrlmat_deriv Op d thr th3 thrA evs Vs Qs omega basis nopers copers ncoeffs dts ts use_ncd ncd) []) []) []) []) (c0 Op)
   = assemble_entry Op nj G (fun j => nth3 (c0 Op) SD s j o) (rget Op (nth s (sh_Ls Op d Qs basis) []))
@@ -926,12 +961,12 @@ Qed.
 
 (* every number of _control_matrix_at_timestep_derivative is a [step_deriv_entry] of the matrix of [M_entry]s
    (plus the [sens_term] when n_coeffs_deriv is given) *)
-Theorem pair_SD_entry G nj no phases BTs DIs NTs CBs steps use_ncd ncd_row s_row g j o :
+Theorem pair_SD_entry G nj no phases BTs DIs NTs CBs steps_unit use_ncd ncd_row g j o :
   (g < G)%nat -> (j < nj)%nat -> (o < no)%nat ->
-  nth3 (c0 Op) (pair_SD Op d G nj no phases BTs DIs NTs CBs steps use_ncd ncd_row s_row) g j o
+  nth3 (c0 Op) (pair_SD Op d G nj no phases BTs DIs NTs CBs steps_unit use_ncd ncd_row) g j o
   = let base := step_deriv_entry Op d (nth2 (c0 Op) phases g o) (nth2 [] BTs g j)
                   (mbuild d d (M_entry Op d (a4get Op (nth2 [] DIs g o)) (nthm CBs g) (nthm NTs g))) in
-    if use_ncd then cadd Op base (sens_term Op (vg Op ncd_row g) (vg Op s_row g) (nth3 (c0 Op) steps g j o))
+    if use_ncd then cadd Op base (sens_term Op (vg Op ncd_row g) (nth3 (c0 Op) steps_unit g j o))
     else base.
 Proof.
   intros Hg Hj Ho. unfold nth3 at 1. unfold pair_SD.
